@@ -832,9 +832,10 @@ class _Boom(Exception):
     pass
 
 
-DF_EXC = {"AttributeError": AttributeError, "TraitError": TraitError, "KeyError": KeyError, "Boom": _Boom}
+# ("none": the callback does not raise, it returns one persistent mortal object whose reference count is then watched)
+DF_EXC = {"AttributeError": AttributeError, "TraitError": TraitError, "KeyError": KeyError, "Boom": _Boom, "none": None}
 DF_FILTERS = ["default", "error", "ignore", "always"]
-DF_KINDS = ["method", "factory", "property-getter", "delegate-default"]
+DF_KINDS = ["method", "factory", "property-getter", "delegate-default", "expression-method", "list-method", "validated-any-method"]
 DF_ROUTES = ["getattr", "trait_get", "setattr-reads-old", "hasattr"]
 
 
@@ -853,17 +854,30 @@ def deffault_run(case, ctx):
     """A default-value callback raises the SAME exception instance every time; whatever the warnings filter turns that
     into, the instance's reference count does not drift and what is raised stays a live object."""
     E = DF_EXC[case["exc"]]
-    inst = E("the default fails")
     kind = case["kind"]
+    if E is None:
+        inst = {"expression-method": "1 + 10 ** 6 + %d" % id(case), "list-method": [10 ** 30], "method": 10 ** 30 + 7}.get(kind, V())
 
-    def boom(*a):
-        raise inst
+        def boom(*a):
+            return inst
+    else:
+        inst = E("the default fails")
+
+        def boom(*a):
+            raise inst
     if kind == "method":
         cls = type("DF", (HasTraits,), {"x": Int, "_x_default": lambda self: boom()})
     elif kind == "factory":
         cls = type("DF", (HasTraits,), {"x": Any(factory=boom)})
     elif kind == "property-getter":
         cls = type("DF", (HasTraits,), {"x": Property(Int), "_get_x": lambda self: boom(), "_set_x": lambda self, v: None})
+    elif kind == "expression-method":
+        # a callable default on a trait with a validator AND the "store the original value" flag
+        cls = type("DF", (HasTraits,), {"x": T.Expression, "_x_default": lambda self: boom()})
+    elif kind == "list-method":
+        cls = type("DF", (HasTraits,), {"x": List(Any), "_x_default": lambda self: boom()})
+    elif kind == "validated-any-method":
+        cls = type("DF", (HasTraits,), {"x": T.Instance(object), "_x_default": lambda self: boom()})
     else:
         pc = type("DP", (HasTraits,), {"x": Int, "_x_default": lambda self: boom()})
         cls = type("DF", (HasTraits,), {"p": Instance(pc, ()), "x": DelegatesTo("p")})
@@ -898,23 +912,24 @@ def deffault_run(case, ctx):
         e = stale_error()
         if e is not None:
             ctx.fail("stale-error/default", "%r left the error indicator set: %r" % (case, e))
+    def clean():
+        gc.collect()
+        if isinstance(inst, BaseException):
+            inst.__traceback__ = None
     op()
-    gc.collect()
-    inst.__traceback__ = None
+    clean()
     r0 = sys.getrefcount(inst)
     for _ in range(10):
         op()
-    gc.collect()
-    inst.__traceback__ = None
+    clean()
     r1 = sys.getrefcount(inst)
     for _ in range(30):
         op()
-    gc.collect()
-    inst.__traceback__ = None
+    clean()
     r2 = sys.getrefcount(inst)
     if r1 - r0 or r2 - r1:
         kindb = "over-release" if (r1 - r0 < 0 or r2 - r1 < 0) else "leak"
-        ctx.fail("refcount/" + kindb, "%r: the reference count of the raised exception instance changed by %+d after 10 and %+d "
+        ctx.fail("refcount/" + kindb, "%r: the reference count of the object the default callback raises / returns changed by %+d after 10 and %+d "
                  "after 30 more repetitions (expected 0)" % (case, r1 - r0, r2 - r1))
 
 
